@@ -203,6 +203,37 @@ class Violation(Exception):
                 'witness': jsonable(self.witness)}
 
 
+def from_repo(exc):
+    """True when the exception propagated out of code of the tree under test (not a harness bug)."""
+    tb = exc.__traceback__
+    root = os.path.realpath(REPO) + os.sep
+    while tb is not None:
+        if os.path.realpath(tb.tb_frame.f_code.co_filename).startswith(root):
+            return True
+        tb = tb.tb_next
+    return False
+
+
+def guarded(prop, acc, case, fn, *args, **kw):
+    """
+    Run one case. A monitor's Violation is recorded; an exception that comes out of the code under test on an
+    input the harness generated as VALID is recorded as a violation too (key raised/<Type>); anything else is a
+    harness bug and propagates (the shard then reports inconclusive).
+    """
+    import traceback
+    try:
+        return fn(*args, **kw)
+    except Violation as v:
+        acc.violation(v, case)
+    except Exception as e:
+        if not from_repo(e):
+            raise
+        acc.violation(Violation(prop, 'raised/%s' % type(e).__name__,
+                                'the code under test raised %r on a valid input' % (e,),
+                                {'traceback': traceback.format_exc()[-1200:]}), case)
+    return None
+
+
 class Acc(object):
     """What one shard (or a whole run, after merging) observed."""
 
